@@ -91,3 +91,125 @@ Lemma C19_fact_subset_covers_columns :
                     (List.app Generated.CliFacts.extended_args ["is_oov"%string]))
           (List.app Generated.CliFacts.subset_basic Generated.CliFacts.subset_all_extra) = true.
 Proof. split; vm_compute; reflexivity. Qed.
+
+(* ==================================================================================================================
+   The Python binding's glue (Model/PyProjection.v): surface projections, the field-set parser, Morpheme.begin / end.
+   Every table is re-extracted from python/src/projection.rs, sudachi/src/config.rs, python/src/dictionary.rs,
+   tokenizer.rs, morpheme.rs and python/py_src/sudachipy/config.py on every run (Generated/PyFacts.v).
+   ================================================================================================================== *)
+From Coq Require Import String.
+From SudachiVerif Require Import Model.Codec Model.PyProjection Proofs.CodecProofs Proofs.PyProjectionProofs.
+From SudachiVerif Require Model.Buffer Proofs.BufferProofs Proofs.BufferCharProofs Proofs.PyOffsets.
+From SudachiVerif Require Generated.FieldOrder Generated.BufferFacts.
+
+(* the generated tables are the ones the proofs were written for: names -> variants, required subsets, implementation of
+   each variant (matcher, accessor on match, accessor otherwise), the POS components and values the two matchers test,
+   the field names, the documented projection names, Dictionary.create ORs the required subset in, the accessors behind
+   Morpheme.begin / end / raw_surface, the InfoSubset bits *)
+Fact C19_py_facts_ok : py_facts_ok.
+Proof. unfold py_facts_ok. repeat split; vm_compute; reflexivity. Qed.
+Fact C19_reader_facts : reader_facts_ok.
+Proof. split; vm_compute; reflexivity. Qed.
+Fact C19_normalize_closure : closure_ok = true.
+Proof. vm_compute. reflexivity. Qed.
+
+(* what each projection returns (the documentation only lists the names; the meaning is that of the code, stated here):
+   surface / normalized / reading / dictionary: that string;  dictionary_and_surface and normalized_and_surface: the raw
+   surface for conjugating words (POS component 0 is 動詞, 形容詞 or 助動詞), otherwise the dictionary / normalised form;
+   normalized_nouns: the normalised form for words without conjugation form (POS component 5 is "*"), otherwise the raw
+   surface.  The POS tuple is the one the grammar lists under the morpheme's POS id (PosMatcher = set of ids). *)
+Theorem C19_projection_spec : forall pl k m, project pl k m = Some (project_std pl k m).
+Proof. exact (projection_spec C19_py_facts_ok). Qed.
+Print Assumptions C19_projection_spec.
+
+Theorem C19_matcher_spec : forall pl mk pid,
+  matches pl mk pid = match nth_error pl (N.to_nat pid) with Some p => pos_pred mk p | None => false end.
+Proof. exact matches_spec. Qed.
+Print Assumptions C19_matcher_spec.
+
+(* accepted names <-> kinds, one-to-one; every other string is an error; the documented list is exactly the accepted one *)
+Theorem C19_projection_names :
+  (forall k, kind_of_name (name_of k) = Some k) /\
+  (forall n k, kind_of_name n = Some k -> n = name_of k) /\
+  (forall n, ~ In n (map name_of all_kinds) -> kind_of_name n = None) /\
+  PF.documented_projections = map name_of all_kinds.
+Proof. exact (projection_names C19_py_facts_ok). Qed.
+Print Assumptions C19_projection_names.
+
+(* a projection's result is a function of the raw surface and of the accessors [reads k]; each of them is requested by
+   required_subset k -- EXCEPT the POS id, which dictionary_and_surface / normalized_and_surface / normalized_nouns read
+   although required_subset does not contain POS_ID ... *)
+Theorem C19_projection_reads_only_required :
+  (forall pl k surf i j, (forall a, In a (reads k) -> accessor a i = accessor a j) ->
+     project pl k (view_of surf i) = project pl k (view_of surf j)) /\
+  (forall k a, In a (reads k) -> a = A_pos \/ N.testbit (required_subset k) (acc_flag a) = true) /\
+  (forall k, In A_pos (reads k) -> exists b, 3 <= b <= 8 /\ N.testbit (required_subset k) b = true).
+Proof.
+  exact (conj (projection_depends_on_reads C19_py_facts_ok)
+              (conj (reads_within_required C19_py_facts_ok) (pos_readers_require_a_later_field C19_py_facts_ok))).
+Qed.
+Print Assumptions C19_projection_reads_only_required.
+
+(* ... which is sound only because pos_id is a "light" field of the binary word info lying BEFORE every field those kinds
+   require: the parser decodes and stores it whenever it walks past it, requested or not *)
+Theorem C19_pos_id_loaded_with_any_later_field :
+  forall lx has_syn wid L1 L2 i1 i2 k1 k2,
+  get_word_info lx has_syn wid L1 = Some i1 -> get_word_info lx has_syn wid L2 = Some i2 ->
+  2 <= k1 <= 8 -> N.testbit L1 k1 = true -> 2 <= k2 <= 8 -> N.testbit L2 k2 = true ->
+  accessor A_pos i1 = accessor A_pos i2.
+Proof. exact (pos_loaded C19_reader_facts). Qed.
+Print Assumptions C19_pos_id_loaded_with_any_later_field.
+
+(* hence: a tokenizer created with fields=F and projection P (the binding hands F | required_subset P to set_subset, which
+   loads normalize of it) serves P correctly for EVERY one of the 1024 field sets F, every kind P, every word of every
+   lexicon whose entries parse: the projected string computed from the restricted word info is the one computed from the
+   fully loaded word info *)
+Theorem C19_projection_served_for_every_field_set :
+  forall lx has_syn wid F k pl surf iA,
+  lex_ok lx -> F < 1024 -> get_word_info lx has_syn wid ALL = Some iA ->
+  (forall iS, get_word_info lx has_syn wid (loaded_subset F (Some k)) = Some iS ->
+              project pl k (view_of surf iS) = project pl k (view_of surf iA)) /\
+  (k <> PSurface -> exists iS, get_word_info lx has_syn wid (loaded_subset F (Some k)) = Some iS).
+Proof. exact (projection_served_for_every_field_set C19_py_facts_ok C19_reader_facts C19_normalize_closure). Qed.
+Print Assumptions C19_projection_served_for_every_field_set.
+
+(* parse_field_subset: every documented name sets exactly its InfoSubset bit ('pos' and 'pos_id' the same one), no
+   argument = all fields, a set of names = the union of their bits, one unknown name = error *)
+Theorem C19_fields_spec :
+  (forall n, field_bit n = option_map (N.shiftl 1) (flag_bit_of_field n)) /\
+  parse_field_subset None = Some ALL /\
+  (forall names, parse_field_subset (Some names) = mask_spec names).
+Proof. exact (fields_spec C19_py_facts_ok). Qed.
+Print Assumptions C19_fields_spec.
+
+Theorem C19_fields_known_names :
+  forall names, (forall n, In n names -> flag_bit_of_field n <> None) ->
+  exists m, mask_spec names = Some m /\
+            forall b, N.testbit m b = true <-> exists n, In n names /\ flag_bit_of_field n = Some b.
+Proof. exact mask_spec_known. Qed.
+Print Assumptions C19_fields_known_names.
+
+Theorem C19_fields_unknown_name_is_error :
+  forall names n, In n names -> flag_bit_of_field n = None -> mask_spec names = None.
+Proof. exact mask_spec_unknown. Qed.
+Print Assumptions C19_fields_unknown_name_is_error.
+
+(* Morpheme.begin() / end() count code points of the ORIGINAL text and text[begin:end] == raw_surface(): corollary of
+   C08_morpheme_offsets for the accessors the binding calls (begin_c / end_c / surface, read from python/src/morpheme.rs) *)
+Fact C19_buffer_facts : Buffer.cfg_ok Buffer.the_cfg = true.
+Proof. vm_compute. reflexivity. Qed.
+
+Fact C19_py_offset_facts : PyOffsets.py_offset_facts_ok.
+Proof. repeat split; vm_compute; reflexivity. Qed.
+
+Theorem C19_python_offsets :
+  forall o s n, Buffer.wf_text o = true -> BufferProofs.Reach Buffer.the_cfg o s -> BufferCharProofs.rnode_ok (Buffer.cur s) n ->
+  exists b e,
+    (b <= e)%nat /\
+    PyOffsets.py_begin Buffer.the_cfg s n = Some (Buffer.codepoints_before o b) /\
+    PyOffsets.py_end Buffer.the_cfg s n = Some (Buffer.codepoints_before o e) /\
+    (Buffer.codepoints_before o b <= Buffer.codepoints_before o e)%nat /\
+    PyOffsets.py_raw_surface s n = Some (Buffer.byte_slice o (b, e)) /\
+    Buffer.cp_slice o (Buffer.codepoints_before o b) (Buffer.codepoints_before o e) = Buffer.byte_slice o (b, e).
+Proof. exact (PyOffsets.python_offsets Buffer.the_cfg C19_buffer_facts C19_py_offset_facts). Qed.
+Print Assumptions C19_python_offsets.
